@@ -42,3 +42,69 @@ int ar_put(int d) { return ringbuf_put(rb, (uint8_t)d); }
 void ar_putchar(int ch) { ringbuf_putchar(rb, (char)ch); }
 int ar_get(void) { return ringbuf_get(rb); }
 int ar_empty(void) { return ringbuf_empty(rb); }
+
+#ifndef VERIF_ISCHED
+/* ---- long hauls (custom stage of the sequential harness): one descriptor carries `pairs` get/put pairs with `hold`
+ * bytes in flight; every byte is checked.  len >= 2^31 uses a lazily mapped region (pages behind the reader are given
+ * back, so the resident set stays small).  Returns 0 if all went well, else 1 with a message. */
+#include <stdio.h>
+#include <sys/mman.h>
+int ar_long_haul(unsigned long long len, unsigned hold, unsigned long long pairs, char *msg, size_t msglen)
+{
+	ringbuf_t r;
+	uint8_t *mem;
+	int mapped = len > (1ull << 28);
+	if (mapped) {
+		mem = mmap(NULL, len, PROT_READ | PROT_WRITE, MAP_PRIVATE | MAP_ANONYMOUS | MAP_NORESERVE, -1, 0);
+		if (mem == MAP_FAILED) {
+			snprintf(msg, msglen, "(harness) cannot map %llu bytes", len);
+			return 2;
+		}
+	} else
+		mem = malloc(len);
+	ringbuf_init(&r, mem, len);
+	unsigned long long in = 0, out = 0;
+	int rc = 1;
+#define V(k) ((uint8_t)((k) * 7 + ((k) >> 8) + 3))
+	for (unsigned i = 0; i < hold; i++, in++)
+		if (!ringbuf_put(&r, V(in))) {
+			snprintf(msg, msglen, "ring of %llu bytes: put #%llu refused with %llu bytes unread", len, in, in - out);
+			goto done;
+		}
+	for (unsigned long long k = 0; k < pairs; k++) {
+		int g = ringbuf_get(&r);
+		if (g != V(out)) {
+			snprintf(msg, msglen, "ring of %llu bytes, %u bytes in flight: get #%llu returned %d, byte #%llu of the stream is %d", len, hold, out, g, out, V(out));
+			goto done;
+		}
+		out++;
+		if (!ringbuf_put(&r, V(in))) {
+			snprintf(msg, msglen, "ring of %llu bytes: put #%llu refused with only %llu bytes unread", len, in, in - out);
+			goto done;
+		}
+		in++;
+		if (mapped && (out & ((1ull << 27) - 1)) == 0 && (out % len) >= (1ull << 27))
+			madvise(mem + ((out % len) & ~((1ull << 27) - 1)) - (1ull << 27), 1ull << 27, MADV_DONTNEED);
+	}
+	while (out < in) {
+		int g = ringbuf_get(&r);
+		if (g != V(out)) {
+			snprintf(msg, msglen, "ring of %llu bytes: final drain, get #%llu returned %d, expected %d", len, out, g, V(out));
+			goto done;
+		}
+		out++;
+	}
+	if (ringbuf_get(&r) != -1 || !ringbuf_empty(&r)) {
+		snprintf(msg, msglen, "ring of %llu bytes: not empty after %llu bytes went through and all were read", len, in);
+		goto done;
+	}
+	rc = 0;
+done:
+#undef V
+	if (mapped)
+		munmap(mem, len);
+	else
+		free(mem);
+	return rc;
+}
+#endif
